@@ -34,8 +34,14 @@ def check(recipe, ctx):
     total = sum(durations)
     bounds = set(itertools.accumulate(durations))
     hist = recipe.get("history")
+    dt = recipe.get("np_durations")
+    if dt is not None and all(d <= np.iinfo(dt).max for d in durations):
+        wrap = getattr(np, dt)          # integer durations of a small numpy type (their total may not fit that type)
+        ctx.label("numpy-durations-" + dt)
+    else:
+        wrap = int
     for mode in ("cycle", "light"):
-        elements = [TrafficLightCycleElement(TrafficLightState[c], d) for c, d in zip(colours, durations)]
+        elements = [TrafficLightCycleElement(TrafficLightState[c], wrap(d)) for c, d in zip(colours, durations)]
         light = None
         if hist is not None:
             # the object under test has been used before with another cycle definition and reaches the recipe's
@@ -64,6 +70,14 @@ def check(recipe, ctx):
                 obj.get_state_at_time_step(ts[0])
                 for e, target in zip(cycle.cycle_elements, elements):
                     e.duration = target.duration
+            elif hist["kind"] == "states-in-place":
+                # same durations, the colours in another order; queried; then every colour is set in place
+                cycle.cycle_elements = [TrafficLightCycleElement(elements[j].state, e.duration)
+                                        for e, j in zip(elements, order)]
+                for t in ts:
+                    obj.get_state_at_time_step(t)
+                for e, target in zip(cycle.cycle_elements, elements):
+                    e.state = target.state
             elif hist["kind"] == "shallow-copy-offset":
                 # a shallow copy of the (already used) cycle gets another offset: the original keeps following its own
                 cycle.cycle_elements = elements
@@ -216,12 +230,14 @@ def strategy(tier):
                        min_size=1, max_size=8),
         "initial_offset": st.one_of(st.none(), st.none(), st.integers(0, 50)),
         "history": st.one_of(st.none(), st.none(), st.fixed_dictionaries({
-            "kind": st.sampled_from(["offset", "elements", "new-cycle", "durations-in-place", "shallow-copy-offset"]),
+            "kind": st.sampled_from(["offset", "elements", "new-cycle", "durations-in-place", "states-in-place",
+                                     "shallow-copy-offset"]),
             "offset": st.integers(0, 50),
             "order": st.lists(st.integers(0, 9), min_size=6, max_size=6), "repeat": st.booleans()})),
         # the 'active' flags describe whether the light is switched on, not which phase its cycle is in
         "active": st.sampled_from([True, True, False]), "cycle_active": st.sampled_from([True, True, False]),
         "active_via_setter": st.booleans(),
+        "np_durations": st.sampled_from([None, None, None, "int8", "int16", "int32", "int64"]),   # signed types only
     }))
 
 
